@@ -48,6 +48,42 @@ Fixpoint pat_toks (p : pat) : toks :=
 Definition is_block (e : expr) : bool :=
   match e with EBlock _ => true | _ => false end.
 
+Definition dquote : string := """".
+(** fixed parts of the local helper templates of trait_handlers/debug/common.rs *)
+Definition allow_ncct_attr : toks :=
+  [P "#"; G Bracket [I "allow"; G Paren [I "non_camel_case_types"]]].
+Definition dbg_inline_attr : toks := [P "#"; G Bracket [I "inline"]].
+(** `(&self, <f>: &mut ::core::fmt::Formatter[<'_>]) -> ::core::fmt::Result` *)
+Definition fmt_sig (fname : string) (anon_lifetime : bool) : toks :=
+  [G Paren ([P "&"; I "self"; P ","; I fname; P ":"; P "&"; I "mut"] ++
+            rpath_toks (RCore ["fmt"; "Formatter"]) ++
+            (if anon_lifetime then [P "<"; TLife "_"; P ">"] else []));
+   P "->"] ++ rpath_toks (RCore ["fmt"; "Result"]).
+Definition debug_map_builder_toks : toks :=
+  allow_ncct_attr ++
+  [I "struct"; I "Educe__RawString"; G Paren [P "&"; TLife "static"; I "str"]; P ";"] ++
+  [I "impl"] ++ rpath_toks (RCore ["fmt"; "Debug"]) ++ [I "for"; I "Educe__RawString";
+   G Brace (dbg_inline_attr ++ [I "fn"; I "fmt"] ++ fmt_sig "f" true ++
+            [G Brace [I "f"; P "."; I "write_str"; G Paren [I "self"; P "."; I "0"]]])] ++
+  [I "let"; I "mut"; I "builder"; P "="; I "f"; P "."; I "debug_map"; G Paren []; P ";"].
+Definition debug_field_arg_toks (impl_generics field_ty self_ty where_clause method field_expr : toks)
+  : toks :=
+  [I "let"; I "arg"; P "=";
+   G Brace
+     (allow_ncct_attr ++
+      [I "struct"; I "Educe__DebugField"; P "<"; I "V"; P ","; I "M"; P ">";
+       G Paren ([I "V"; P ","] ++ rpath_toks (RCore ["marker"; "PhantomData"]) ++ [P "<"; I "M"; P ">"]);
+       P ";"] ++
+      [I "impl"] ++ impl_generics ++ rpath_toks (RCore ["fmt"; "Debug"]) ++
+      [I "for"; I "Educe__DebugField"; P "<"; P "&"] ++ field_ty ++ [P ","] ++ self_ty ++ [P ">"] ++
+      where_clause ++
+      [G Brace (dbg_inline_attr ++ [I "fn"; I "fmt"] ++ fmt_sig "educe__f" true ++
+                [G Brace (method ++ [G Paren [I "self"; P "."; I "0"; P ","; I "educe__f"]])])] ++
+      [I "Educe__DebugField";
+       G Paren (field_expr ++ [P ","] ++ rpath_toks (RCore ["marker"; "PhantomData"]) ++
+                [P "::"; P "<"; I "Self"; P ">"])]);
+   P ";"].
+
 Fixpoint expr_toks (e : expr) : toks :=
   match e with
   | EVar x => [I x]
@@ -82,13 +118,16 @@ Fixpoint expr_toks (e : expr) : toks :=
   | EStruct p fs trailing =>
       rpath_toks p ++
       [G Brace (list_toks trailing (map (fun '(n, v) => [I n; P ":"] ++ expr_toks v) fs))]
-  | EMacro name args => [I name; P "!"; G Paren args]
+  | EMacro name args => [P "::"; I "core"; P "::"; I name; P "!"; G Paren args]
   | ELet m x e => I "let" :: (if m then [I "mut"] else []) ++ [I x; P "="] ++ expr_toks e ++ [P ";"]
   | ESemi e => expr_toks e ++ [P ";"]
   | ECallT f args => expr_toks f ++ [G Paren (each_then comma (map expr_toks args))]
   | EMatchC s arms =>
       I "match" :: expr_toks s ++
       [G Brace (flat_map (fun '(p, b) => pat_toks p ++ [P "=>"] ++ expr_toks b ++ comma) arms)]
+  | EStr s => [TStr (dquote ^^ s ^^ dquote) s None]
+  | EDebugMapBuilder => debug_map_builder_toks
+  | EDebugFieldArg ig fty sty wc m fe => debug_field_arg_toks ig fty sty wc m (expr_toks fe)
   end.
 
 Definition block_toks (b : block) : toks := flat_map expr_toks b.
